@@ -29,7 +29,8 @@ def shards(tier):
 def setup(ctx):
     ctx.level = "exploration"
     ctx.rule = (
-        "histories over the alphabet {get, upload, get-via-redirect, trust, revoke, clear, import, swap-cert} x 2 "
+        "histories over the alphabet {get, upload, get-via-redirect, get whose exchange fails after the handshake "
+        "(close / garbage header / unknown charset / reset), trust, revoke, clear, import, swap-cert} x 2 "
         "host:port pairs (same host different ports, different host spellings) x certificate pool (RSA-2048, EC "
         "P-256, Ed25519, tampered non-DER BOOLEAN, tampered version): exhaustive to depth 3 (quick) / 4 (thorough) "
         "at L3 over a reduced alphabet and depth 4/5 at L0, random histories of length 10-30 beyond; TOFU on and off. "
@@ -167,12 +168,29 @@ class World:
     def __init__(self):
         self.P = pool()
         self.redirect_target = {}
+        self.fail_next = {}
 
         def make_behaviour(name):
             def behaviour(conn):
                 line = conn.read_line(timeout=5)
                 if line is None:
                     conn.close()
+                    return
+                fault = self.fail_next.pop(name, None)
+                if fault == "close-before-header":
+                    conn.close()
+                    return
+                if fault == "garbage-header":
+                    conn.send(b"99 nonsense header\r\n")
+                    conn.close()
+                    return
+                if fault == "unknown-charset":
+                    conn.send(b"20 text/gemini; charset=klingon\r\nbody")
+                    conn.close()
+                    return
+                if fault == "reset-mid-body":
+                    conn.send(b"20 text/gemini\r\npartial")
+                    conn.reset()
                     return
                 if line.startswith(b"titan://"):
                     conn.drain(timeout=0.3)
@@ -232,6 +250,7 @@ def run_history(ctx, world, hist, tofu=True, label="exhaustive"):
         world.swap("A", "ec1")
         world.swap("B", "ec1")
         world.redirect_target.clear()
+        world.fail_next.clear()
         client = GeminiClient(timeout=8, trust_on_first_use=tofu, tofu_db_path=Path(dbp) if tofu else None)
         admin = TOFUDatabase(Path(dbp))
         model = {}
@@ -246,6 +265,12 @@ def run_history(ctx, world, hist, tofu=True, label="exhaustive"):
                 classes.add(op[2])
                 outcomes.append("swapped")
                 continue
+            failing = None
+            if kind == "getfail":
+                # first contact (or any contact) whose exchange fails *after* the TLS handshake
+                failing = op[2]
+                kind = "get"
+                world.fail_next[TARGETS[op[1]][1]] = failing
             if kind in ("get", "upload", "redirect"):
                 t = op[1]
                 host, peer = TARGETS[t]
@@ -288,6 +313,7 @@ def run_history(ctx, world, hist, tofu=True, label="exhaustive"):
                     res = ("changed", e.hostname, e.port, e.old_fingerprint, e.new_fingerprint)
                 except BaseException as e:  # noqa: BLE001
                     res = ("error", type(e).__name__, str(e)[:100])
+                world.fail_next.clear()
                 ctx.count("monitor", "l3_calls")
                 if kind == "redirect":
                     ctx.count("monitor", "redirect_hops_checked")
@@ -320,12 +346,20 @@ def run_history(ctx, world, hist, tofu=True, label="exhaustive"):
                             break
                         m3.setdefault(key, P[world.current[pr]].fingerprint)
                     model = m3
+                elif failing:
+                    # the exchange fails after the handshake: an error is right, and the certificate that
+                    # was presented on this first connection is pinned all the same
+                    ctx.count("monitor", "failed_exchanges_after_handshake")
+                    if res[0] == "response":
+                        ctx.undecided(f"faulty-exchange-yielded-response:{failing}")
+                    model = m2
+                    world.fail_next.clear()
                 else:
                     if res[0] != "response":
                         ctx.violation("refused-matching" + sfx, f"certificate matches the pin (or first use) but the call failed: {res[:3]}", wit)
                     else:
                         model = m2
-                outcomes.append(res[0] if exp == "response" else exp)
+                outcomes.append((res[0] if exp == "response" else exp) + (":after-" + failing if failing else ""))
             elif kind == "trust":
                 t = op[1]
                 key = key_of(world, t)
@@ -361,7 +395,7 @@ def run_history(ctx, world, hist, tofu=True, label="exhaustive"):
             if not tofu:
                 exp_table = {k2: v for k2, v in model.items()}  # admin ops only
             if got != exp_table:
-                failed = kind in ("get", "upload", "redirect") and outcomes[-1] in ("changed", "refused-unparsable")
+                failed = kind in ("get", "upload", "redirect") and outcomes[-1].split(":")[0] in ("changed", "refused-unparsable")
                 clause = "pin-mutated" if failed else ("first-use-not-pinned" if any(k2 not in got for k2 in exp_table) else "cross-host")
                 ctx.violation(f"{clause}:op={kind}", "known_hosts differs from the pin-map model after this step",
                               dict(wit, table=sorted((f"{a}:{b}", v) for (a, b), v in got.items()), model=sorted((f"{a}:{b}", v) for (a, b), v in exp_table.items())))
@@ -379,9 +413,11 @@ def run_history(ctx, world, hist, tofu=True, label="exhaustive"):
 ALPHABET = [
     ("get", "t1"), ("upload", "t1"), ("get", "t2"), ("get", "t3"), ("redirect", "t1", "t3"), ("redirect", "t2", "t1"),
     ("swap", "A", "ec2"), ("swap", "A", "tbool"), ("swap", "B", "rsa"), ("trust", "t1"), ("revoke", "t1"), ("import", "t3", "ed"),
+    ("getfail", "t1", "close-before-header"),
 ]
 EXTRA = [("get", "t4"), ("upload", "t3"), ("swap", "A", "ed"), ("swap", "A", "rsa"), ("swap", "B", "tver"), ("swap", "A", "ec1"), ("swap", "B", "ec1"), ("clear",),
-         ("redirect", "t3", "t4"), ("upload", "t2"), ("import", "t1", "ec2"), ("revoke", "t3"), ("trust", "t3")]
+         ("redirect", "t3", "t4"), ("upload", "t2"), ("import", "t1", "ec2"), ("revoke", "t3"), ("trust", "t3"),
+         ("getfail", "t1", "garbage-header"), ("getfail", "t3", "unknown-charset"), ("getfail", "t2", "reset-mid-body"), ("getfail", "t3", "close-before-header")]
 
 
 def run_l3(ctx):
@@ -395,7 +431,7 @@ def run_l3(ctx):
             if not ctx.mine(k):
                 continue
             # skip histories without any network call
-            if not any(o[0] in ("get", "upload", "redirect") for o in hist):
+            if not any(o[0] in ("get", "upload", "redirect", "getfail") for o in hist):
                 continue
             if ctx.quick() and (k // ctx.nshards) % 5:
                 continue
